@@ -120,6 +120,9 @@ func buildStream(lens []int, mask int) ([]byte, [][2]int, error) {
 	return buf.Bytes(), ext, nil
 }
 
+// c12ByteWise makes readAll consume every record with ReadByte instead of Read.
+var c12ByteWise bool
+
 type dropCount struct{ n int }
 
 func (d *dropCount) Drop(err error) { d.n++ }
@@ -147,7 +150,27 @@ func readAll(data []byte, strict bool) (recs [][]byte, rerr error, panicked any)
 		if err != nil {
 			return recs, err, nil
 		}
-		b, err := io.ReadAll(rd)
+		var b []byte
+		if c12ByteWise {
+			// through the io.ByteReader side of the record reader (how manifest records are decoded)
+			br, ok := rd.(io.ByteReader)
+			if !ok {
+				return recs, fmt.Errorf("record reader is not an io.ByteReader"), nil
+			}
+			for {
+				var c byte
+				c, err = br.ReadByte()
+				if err != nil {
+					break
+				}
+				b = append(b, c)
+			}
+			if err == io.EOF {
+				err = nil
+			}
+		} else {
+			b, err = io.ReadAll(rd)
+		}
 		if err != nil {
 			if !strict && err == io.ErrUnexpectedEOF {
 				continue
@@ -192,6 +215,21 @@ func tornHeader(full []byte, t int) int {
 }
 
 func checkDamaged(full, data []byte, lens []int, ext [][2]int, cutAt int, flipAt int) (string, bool) {
+	// records consumed with Read, then the same with ReadByte
+	v, effect := checkDamagedOnce(full, data, lens, ext, cutAt, flipAt)
+	if v != "" {
+		return v, effect
+	}
+	c12ByteWise = true
+	defer func() { c12ByteWise = false }()
+	v, e2 := checkDamagedOnce(full, data, lens, ext, cutAt, flipAt)
+	if v != "" {
+		return "records read with ReadByte: " + v, true
+	}
+	return "", effect || e2
+}
+
+func checkDamagedOnce(full, data []byte, lens []int, ext [][2]int, cutAt int, flipAt int) (string, bool) {
 	effect := false
 	for _, strict := range []bool{false, true} {
 		got, err, pan := readAll(data, strict)
@@ -348,11 +386,15 @@ func runC12(t *c12Task) *c12Result {
 					res.MaxBytes = len(data)
 				}
 				for _, strict := range []bool{false, true} {
-					got, rerr, pan := readAll(data, strict)
-					res.Evals++
-					if pan != nil || rerr != nil || !sameRecs(got, lens) {
-						res.Viol = append(res.Viol, fmt.Sprintf("round trip failed lens=%v flushmask=%b strict=%v: got %d records err=%v panic=%v", lens, mask, strict, len(got), rerr, pan))
-						return res
+					for _, bw := range []bool{false, true} {
+						c12ByteWise = bw
+						got, rerr, pan := readAll(data, strict)
+						c12ByteWise = false
+						res.Evals++
+						if pan != nil || rerr != nil || !sameRecs(got, lens) {
+							res.Viol = append(res.Viol, fmt.Sprintf("round trip failed lens=%v flushmask=%b strict=%v bytewise=%v: got %d records err=%v panic=%v", lens, mask, strict, bw, len(got), rerr, pan))
+							return res
+						}
 					}
 				}
 			}
